@@ -135,11 +135,14 @@ pub fn module(r: &mut Rng, allow_unstable: bool) -> (Vec<u8>, AInfo) {
     // names
     if r.chance(1, 2) {
         info.has_names = true; let mut ns = we::NameSection::new();
-        if r.chance(1, 2) { ns.module(&name(r)); }
-        let mk = |r: &mut Rng, n: usize| { let mut nm = we::NameMap::new(); for k in 0..n as u32 { if r.chance(1, 2) { nm.append(k, &format!("{}{}", name(r), k)); } } nm };
-        ns.functions(&mk(r, funcs.len()));
-        let mut ind = we::IndirectNameMap::new(); for fi in n_imp_funcs..funcs.len() { if r.chance(1, 2) { let np = types[funcs[fi] as usize].0.len(); ind.append(fi as u32, &mk(r, np + 2)); } } ns.locals(&ind);
-        ns.types(&mk(r, types.len())); ns.tables(&mk(r, tables.len())); ns.memories(&mk(r, mems.len())); ns.globals(&mk(r, globals.len())); ns.elements(&mk(r, n_elems)); ns.data(&mk(r, n_d));
+        // sparse mode: exactly one kind of entity is named (each subsection must work on its own)
+        let only: Option<u64> = if r.chance(1, 3) { Some(r.below(8)) } else { None };
+        if only.is_none() && r.chance(1, 2) { ns.module(&name(r)); }
+        let mk = |r: &mut Rng, n: usize, kind: u64| { let mut nm = we::NameMap::new(); let on = only.map(|o| o == kind).unwrap_or(true); for k in 0..n as u32 { if on && (only.is_some() || r.chance(1, 2)) { nm.append(k, &format!("{}{}", name(r), k)); } } nm };
+        let fm = mk(r, funcs.len(), 0); if !fm.is_empty() || only.is_none() { ns.functions(&fm); }
+        let mut ind = we::IndirectNameMap::new(); let mut any_l = false; for fi in n_imp_funcs..funcs.len() { if only.map(|o| o == 1).unwrap_or(r.chance(1, 2)) { let np = types[funcs[fi] as usize].0.len(); let lm = mk(r, np + 2, 1); if !lm.is_empty() { any_l = true; ind.append(fi as u32, &lm); } } } if any_l || only.is_none() { ns.locals(&ind); }
+        for (kind, n) in [(2u64, types.len()), (3, tables.len()), (4, mems.len()), (5, globals.len()), (6, n_elems), (7, n_d)] { let nm = mk(r, n, kind); if nm.is_empty() && only.is_some() { continue; }
+            match kind { 2 => { ns.types(&nm); } 3 => { ns.tables(&nm); } 4 => { ns.memories(&nm); } 5 => { ns.globals(&nm); } 6 => { ns.elements(&nm); } _ => { ns.data(&nm); } } }
         m.section(&ns);
     }
     custom(&mut m, r, &mut info, &mut customs_left);
